@@ -30,6 +30,14 @@ def run(ctx):
     ctx.static_and_proofs("clone")
     quick = ctx.tier == "quick"
     args = ["-n", "240" if quick else "2400"]
+    if ctx.replay:
+        # re-run exactly the recorded case (same seed, same index) on the current repository
+        import json
+        rp = json.load(open(ctx.replay))
+        ctx.env["VERIF_SEED"] = str(rp.get("seed", ctx.seed))
+        idx = int(rp["input"]["index"])
+        args = ["-n", str(idx + 1), "-only", str(idx)] + (["-big"] if rp["input"].get("big") else [])
+        quick = True
     cases = ctx.harness("c18", args)
     if cases is None:
         ctx.evidence(dict(evaluations=0, distinct_nontrivial=0, rule="harness did not run", samples=[]))
@@ -70,7 +78,7 @@ def run(ctx):
         rule="plans from harness/plangen (1-2 blocks, 1-2 sequences, 1-3 actions in the quick tier; up to 3x3x3 in the thorough -big run; each of the "
              "10 check groups with p in {.15,.35,.6}; keys with p .3; Req/AltReq/SecReq requests, the latter with coerce:\"secure\" fields at four "
              "depths), crafted into the execution states fresh / submitted / running / completed / failed (ids, states, times, attempts with "
-             "responses and wrapped errors, reason, submit time, plan ids, registry pointers, etags); every 7th case made irregular (nil / empty "
+             "responses and wrapped errors, reason, submit time, plan ids, registry pointers, etags); every 5th case made irregular (1-3 of 20 kinds, the first one cycling through all kinds: nil / empty "
              "slices, nil elements, empty sequence, empty attempts, blank names, short timeout, unknown plugin, rejected / nil request); the object "
              "cloned is the plan or a block / sequence / checks group / action of it; each case = one original x the 4 option sets; evaluations = "
              "(original, option set) observations; distinct = distinct case terms by hash; non-trivial = the original has more than 3 "
